@@ -203,7 +203,7 @@ func stepEvent(kind string, st swapStep, ev string) vh.Ev {
 func runSwap(tracePath string, rounds, lookers int) {
 	tr := vh.NewTrace(tracePath)
 	defer tr.Close()
-	freshManagers()
+	freshManagers("")
 	scns := append(routeScenarios(router.NewRouterManager()), clusterScenarios(conv.NewConverter())...)
 	var lid int64
 	perRound := int64(10)
